@@ -10,9 +10,9 @@ CLAIMED = {
    note="Alloc's ghost effect is the definition of the counter (trusted); the move store's capacity is not modelled. Positions reached by play are covered through the universally quantified valid position; the lemma that legal moves preserve validity (measured 556 s unsplit during design) is not re-run in this revision. debug.perft itself is not under contract (its loop over the frame is the consumer pattern only).",
    ref="DESIGN.md section 5 C01"),
  "C16": dict(
-   text="Proof of the history-band clause: History.Add, Continuation.Add and CaptHist.Add keep an arbitrary cell within [-1024, 1024] for every int16 bonus (gravity lemma over the exact clamp/abs/multiply/divide formula, 64-bit intermediate), the Clear functions zero every cell (loop invariants / whole-array store), LookUp returns the addressed cell, and RankQuiet, a sum of at most three cells, stays within [-3072, 3072], strictly inside the gap below the capture bands and above the already-yielded sentinel.",
-   note="Not yet under contract in this revision: RankNoisy's bands, heur.init's layout assertion, and the picker's per-call state machine (yield order, sentinel marking); the exactly-once clause over a whole iteration is therefore not claimed yet. No-other-writers of the history tables is by inspection (fields are unexported and only Add/Clear store to them).",
-   ref="DESIGN.md section 5 C16"),
+   text="Proof of the history-band clause: History.Add, Continuation.Add and CaptHist.Add keep an arbitrary cell within [-1024, 1024] for every int16 bonus (gravity lemma over the exact clamp/abs/multiply/divide formula, 64-bit intermediate), the Clear functions zero every cell, LookUp returns the addressed cell, RankQuiet (a sum of at most three cells) stays within [-3072, 3072] and RankNoisy lies in one of the two capture bands [7168, 7377] / [-8192, -7983], all strictly above the sentinel -16384. Proof of the picker's per-call contract (picker.Next, all four loops by invariants, the store as an unbounded array): under the picker invariant (frame shape; every pending entry equal to the hash move carries the sentinel weight, every other pending entry a weight >= -8192) one call of Next re-establishes the invariant, yields (result true) exactly one more entry whose weight is above the sentinel - never a marked duplicate - and not smaller than any entry still pending, yields the hash move first iff it is pseudo-legal in the rule specification, never changes an already yielded entry or a lower frame, and answers false only when nothing but marked duplicates of the hash move is pending.",
+   note="The generators and rankers are used by the picker through views: GenNoisy/GenNotNoisy as append-only (justified by a mechanical scan that every store in their call tree happens inside move.Store.Alloc, which the picker executes in place; store capacity assumed), RankNoisy/RankQuiet by their proved bands. Not mechanised: the composition over a whole iteration (exactly once = C01's exactly-once generation + the per-call contract + a multiset argument over the selection swaps), heur.init's layout assertion. Clauses over the arbitrary store index gi are schemas and are additionally instantiated at the first pending entry (`instances`).",
+   ref="DESIGN.md section 5 C16 and section 11"),
  "C02": dict(
    text="Proof by contracts on MakeMove, CanEnPassant, IsAttacked/InCheck and the attack tables (C12), for a fully symbolic board and move: quick tier discharges side to move, castling rights (NewCastles vs the rule), halfmove clock, fullmove number, hash-history push and the e.p. field (target recorded iff a legal e.p. capture exists: CanEnPassant == existsLegalEP of the rule spec, 16 colour x file cases; this obligation found defect F1, repaired). The piece-placement clause (all six piece sets and both colour sets equal the rule successor) is discharged in the quick tier as well (about 20 s with the bit-blasting racer). The halfmove clock obligation over mathematical integers fails exactly for clock 127 (int8 wrap): known finding F4.",
    note="MakeMove is verified under the local precondition `movable` + `lightPos`; lemma movableFromPseudo shows every pseudo-legal move of a valid position satisfies it. Not covered: uci.applyMoves/parseUCIMove (string handling) are not under contract, so the `position ... moves` path relies on C05's gate only; chains of moves follow by induction over the single-step contract (validity preservation lemma not mechanised in this revision).",
